@@ -129,7 +129,7 @@ def run_batch(gh, idx, profile, n, extra, seed, reps=2):
                        "distinct": res["distinct"], "generated": res["generated"], "patterns": len(seen)}
         cmd = [gh, subcmd, "-in", "exported.ndjson", "-seed", str(seed), "-out", "trace.ndjson", "-cases", "cases.ndjson"]
         if profile == "patterne":
-            cmd += ["-flagp", "0.5"]
+            cmd += ["-flagp", "0.3", "-bystander"]
         if profile in ("pattern", "patternx", "patterne"):
             cmd += ["-worlds", str(n)]
     elif profile.startswith("grb:"):
